@@ -62,6 +62,18 @@ def _args(api, line, tools, d):
         if co:
             a.append("-t")
         return a
+    if api == "clictu":
+        mode, r, c, infmt, outfmt = (int(x) for x in t[:5])
+        inb, p = _take_list(t, 5)
+        open(os.path.join(d, "in"), "wb").write(bytes(inb))
+        if mode == 2:
+            a = [tools["cmr-ctu"], os.path.join(d, "in"), os.path.join(d, "out"), "-i", FMT[infmt], "-o", FMT[outfmt]]
+            if r >= 0:
+                a += ["-r", str(r + 1)]
+            if c >= 0:
+                a += ["-c", str(c + 1)]
+            return a
+        return [tools["cmr-ctu"], os.path.join(d, "in"), "-i", FMT[infmt], "-o", FMT[outfmt], "-N", os.path.join(d, "out")]
     if api == "clisub":
         tool, variant, infmt = (int(x) for x in t[:3])
         inb, p = _take_list(t, 3)
